@@ -415,6 +415,19 @@ func (x *Exec) buildPrelude() string {
 			b.WriteString("(assert (forall ((e Real)) (! (=> (>= e 0.0) (>= (uf.pow 2.0 e) 1.0)) :pattern ((uf.pow 2.0 e)))))\n")
 			b.WriteString("(assert (= (uf.pow 2.0 0.0) 1.0))\n")
 			b.WriteString("(assert (forall ((e Real)) (! (> (uf.pow 2.0 e) 0.0) :pattern ((uf.pow 2.0 e)))))\n")
+		case k == "concat":
+			b.WriteString("(assert (forall ((p Str) (q Str)) (! (= (strlen (uf.concat p q)) (+ (strlen p) (strlen q))) :pattern ((uf.concat p q)))))\n")
+			b.WriteString("(assert (forall ((p Str)) (! (= (uf.concat p str.empty) p) :pattern ((uf.concat p str.empty)))))\n")
+			b.WriteString("(assert (forall ((p Str)) (! (= (uf.concat str.empty p) p) :pattern ((uf.concat str.empty p)))))\n")
+		case k == "hexdec":
+			b.WriteString("(assert (forall ((s Str)) (! (and (uf.hexvalid (uf.hex s)) (= (uf.hexdec (uf.hex s)) s)) :pattern ((uf.hex s)))))\n")
+		case k == "b64":
+			b.WriteString("(assert (forall ((s Str)) (! (and (uf.b64valid (uf.b64 s)) (= (uf.b64dec (uf.b64 s)) s)) :pattern ((uf.b64 s)))))\n")
+		case k == "strlt":
+			b.WriteString("(assert (forall ((a Str)) (! (not (uf.strlt a a)) :pattern ((uf.strlt a a)))))\n")
+			b.WriteString("(assert (forall ((a Str) (b Str)) (! (=> (uf.strlt a b) (not (uf.strlt b a))) :pattern ((uf.strlt a b)))))\n")
+			b.WriteString("(assert (forall ((a Str) (b Str)) (! (or (uf.strlt a b) (= a b) (uf.strlt b a)) :pattern ((uf.strlt a b)))))\n")
+			b.WriteString("(assert (forall ((a Str) (b Str) (c Str)) (! (=> (and (uf.strlt a b) (uf.strlt b c)) (uf.strlt a c)) :pattern ((uf.strlt a b) (uf.strlt b c)))))\n")
 		case k == "epoch":
 			b.WriteString("(assert (> time.epoch 0))\n")
 		case strings.HasPrefix(k, "card:"):
